@@ -17,7 +17,7 @@ import os
 
 import common as C
 
-FAST_SAMPLE = 3000      # fast-path cases that are nevertheless judged by TLC (never vacuous)
+FAST_SAMPLE = 2000      # fast-path cases that are nevertheless judged by TLC (never vacuous)
 
 
 def _cfg(path, open_names):
@@ -29,16 +29,13 @@ def _cfg(path, open_names):
     ])
 
 
-def _validate(out, trace, tag, timeout=3000):
-    """Judge every event of `trace` with Trace_Attr.tla; -> (TlcResult, number of events)"""
-    cfgname = "Trace_Attr.%d.cfg" % os.getpid()
-    cfg = os.path.join(C.SPEC, cfgname)
-    _cfg(cfg, out.open.keys())
-    try:
-        res = C.run_tlc("Trace_Attr", cfgname, tag, env={"TRACE": trace}, workers=1, deque=True,
-                        timeout=timeout, xmx="8g")
-    finally:
-        os.unlink(cfg)
+CHUNK = int(os.environ.get("VERIF_C11_CHUNK", "0"))   # events per TLC instance of the trace validation (0: by size)
+PARALLEL = 4            # TLC instances (one worker each) run side by side on big traces
+
+
+def _validate_one(cfgname, trace, tag, timeout):
+    res = C.run_tlc("Trace_Attr", cfgname, tag, env={"TRACE": trace}, workers=1, deque=True,
+                    timeout=timeout, xmx="6g")
     C.tlc_must_pass(res, "Trace_Attr")
     n = C.count_lines(trace)
     for tag_, v in res.lines:
@@ -46,7 +43,55 @@ def _validate(out, trace, tag, timeout=3000):
             raise C.ToolError("trace validation consumed only part of the trace: %s" % (v,))
     if res.distinct != n + 1:
         raise C.ToolError("trace validation visited %d states for %d events" % (res.distinct, n))
-    verdicts = [v for t, v in res.lines if t == "VERDICT"]
+    return res, n
+
+
+def _validate(out, trace, tag, timeout=3000):
+    """Judge every event of `trace` with Trace_Attr.tla (events are independent, so a big trace is cut into
+    chunks judged by several TLC instances); -> (TlcResult of the first chunk with summed counters, #events)"""
+    cfgname = "Trace_Attr.%d.cfg" % os.getpid()
+    cfg = os.path.join(C.SPEC, cfgname)
+    _cfg(cfg, out.open.keys())
+    total = C.count_lines(trace)
+    chunk = CHUNK if CHUNK > 0 else (25000 if total > 50000 else max(2500, (total + 1) // 2))
+    chunks = []                      # (path, offset)
+    if total <= chunk:
+        chunks.append((trace, 0))
+    else:
+        with open(trace) as f:
+            k = 0
+            while True:
+                path = "%s.%d" % (trace, k)
+                n = 0
+                with open(path, "w") as g:
+                    for line in f:
+                        g.write(line)
+                        n += 1
+                        if n == chunk:
+                            break
+                if n == 0:
+                    os.unlink(path)
+                    break
+                chunks.append((path, k * chunk))
+                k += 1
+    try:
+        with concurrent.futures.ThreadPoolExecutor(max_workers=PARALLEL) as ex:
+            futs = [ex.submit(_validate_one, cfgname, path, "%s%d" % (tag, i), timeout)
+                    for i, (path, _) in enumerate(chunks)]
+            results = [fu.result() for fu in futs]
+    finally:
+        os.unlink(cfg)
+    wall0 = results[0][0].wall
+    verdicts = []
+    nev = 0
+    for (path, off), (res, n) in zip(chunks, results):
+        nev += n
+        for t, v in res.lines:
+            if t == "VERDICT":
+                v["i"] += off
+                verdicts.append(v)
+    if nev != total:
+        raise C.ToolError("trace validation judged %d of %d events" % (nev, total))
     if verdicts:
         wanted = {v["i"] for v in verdicts}
         events = {}
@@ -58,7 +103,12 @@ def _validate(out, trace, tag, timeout=3000):
             if str(v.get("verdict", "")).startswith("TOOL-"):
                 raise C.ToolError("%s on event %d of %s" % (v["verdict"], v["i"], trace))
             out.verdict(v, events.get(v["i"]))
-    return res, n
+    for path, _ in chunks:
+        if path != trace:
+            os.unlink(path)
+    res = results[0][0]
+    res.wall = max(r.wall for r, _ in results) if len(results) <= PARALLEL else sum(r.wall for r, _ in results) / PARALLEL
+    return res, nev
 
 
 def _split(obs, trace, budget):
@@ -111,6 +161,31 @@ def _replay_parallel(replay, obs, wd, nproc):
             os.unlink(pout)
 
 
+def _rnd_stats(doc, text, st):
+    """what the random documents exercised (evidence only)"""
+    present = [e["el"] for e in doc["els"]]
+    decl = [a["el"] for a in doc["attlists"]]
+    if any(d in present for d in decl):
+        st["with_declared_attribute_of_present_element"] += 1
+    if any(decl.count(d) >= 2 and d in present for d in decl):
+        st["with_two_attlists_for_one_element"] += 1
+    vals = [w["v"] for e in doc["els"] for w in e["written"]] + \
+           [d["dv"] for a in doc["attlists"] for d in a["defs"]]
+    ents = {tuple(x["n"]): x["v"] for x in doc["ents"]}
+
+    def depth(items):
+        return max([0] + [1 + depth(ents.get(tuple(it["n"]), [])) for it in items if it["t"] == "e"])
+    d = max([0] + [depth(v) for v in vals])
+    if d >= 1:
+        st["with_entity_reference_in_a_value"] += 1
+    if d >= 3:
+        st["entity_nesting_depth_ge_3"] += 1
+    if len(doc["els"]) > 1:
+        st["with_several_elements"] += 1
+    if any(c > 127 for c in text):
+        st["with_non_ascii"] += 1
+
+
 def _abs_key(e):
     if e.get("k") == "mc":
         a = e["abs"]
@@ -136,13 +211,13 @@ def run(prop, tier):
             raise C.ToolError("MC_Attr emitted no case")
         # 2. spec -> impl: replay every case into the DOM
         obs = os.path.join(wd, "attr.obs")
-        _replay_parallel(replay, obs, wd, 1 if ncases < 100000 else 4)
+        _replay_parallel(replay, obs, wd, 3 if ncases < 100000 else 4)
         if C.count_lines(obs) != ncases:
             raise C.ToolError("harness observed %d of %d cases" % (C.count_lines(obs), ncases))
         os.unlink(replay)
         # 3. impl -> spec: seeded random documents
         rnd = os.path.join(wd, "attr.rnd")
-        nrnd = 3000 if tier == "quick" else 30000
+        nrnd = 2500 if tier == "quick" else 30000
         C.run_harness(["doc-attr-record", "--seed", str(C.seed()), "--count", str(nrnd), "--out", rnd])
         # 4. one judge: Trace_Attr.tla
         trace = os.path.join(wd, "attr.trace")
@@ -163,12 +238,17 @@ def run(prop, tier):
                     out.nontriv(_abs_key(e))
                 if len(a["items"]) >= 2:
                     out.sample({"abs": a, "views": e["views"][:1]}, limit=3)
+        stats = {"with_declared_attribute_of_present_element": 0, "with_entity_reference_in_a_value": 0,
+                 "entity_nesting_depth_ge_3": 0, "with_several_elements": 0, "with_non_ascii": 0,
+                 "with_two_attlists_for_one_element": 0}
         with open(rnd) as f:
             for i, line in enumerate(f):
                 e = json.loads(line)
                 out.nontriv(_abs_key(e))
+                _rnd_stats(e["doc"], e["text"], stats)
                 if i < 2:
                     out.sample({"text": "".join(chr(c) for c in e["text"]), "views": e["views"][:1]}, limit=5)
+        out.extra["random_document_stats"] = stats
         out.rule = ("every REPLAY case of MC_Attr (literal x declared type x default kind x written x ATTLIST "
                     "layout) is parsed in the raw and the text-expanded view and Attr::name/value/specified of "
                     "every entry of attributes(), attributes().length(), Element::get_attribute of every "
